@@ -137,8 +137,8 @@ def run_case(cls, key, seed, ctx):
             d = f(yl, pl_, sensitive_features=gg, method=method, sample_weight=wv(w * gen.pick(rng, SCALES)), **extra)
             ctx.ev("fairness_pairs_compared", 3)
             wit = dict(method=method, y_true=yl, y_pred=pl_, groups=gg, weights=w.tolist(), **extra)
-            ctx.check(_same(a, b), "weight_k_differs_from_k_copies:" + fname, weighted=repr(a), repeated=repr(b), **wit)
-            ctx.check(_same(b, c), "none_differs_from_all_ones:" + fname, none=repr(b), ones=repr(c), **wit)
-            ctx.check(_same(a, d), "weight_scaling_changes_result:" + fname, base=repr(a), scaled=repr(d), **wit)
+            ctx.check(_same(a, b), "weight_k_differs_from_k_copies:" + fname, weighted=repr(a), repeated=repr(b), wit=wit)
+            ctx.check(_same(b, c), "none_differs_from_all_ones:" + fname, none=repr(b), ones=repr(c), wit=wit)
+            ctx.check(_same(a, d), "weight_scaling_changes_result:" + fname, base=repr(a), scaled=repr(d), wit=wit)
         return
     raise ValueError(cls)
